@@ -450,3 +450,45 @@ Theorem gen_Validate_caps : forall ctx md : list N,
   else None.
 Proof. exact GenTie_C05.Validate_caps. Qed.
 Print Assumptions gen_Validate_caps.
+
+(* ================================================================== *)
+(* The extended-provider list is checked entry by entry WHATEVER the other fields are.
+   Quantified over every advertisement (all links, provider, addresses, context ID, metadata,
+   REMOVAL FLAG, signature) and every list: acceptance implies that every entry passed its
+   own check (valid envelope over that entry's payload, sealed by the identity it names), that
+   a non-empty list names the main provider and that the advertisement is then not a removal
+   -- so nothing can be attached to a signed removal advertisement, and replacing the list of
+   an accepted advertisement is accepted only if the new list checks out entry by entry. *)
+Theorem extended_providers_checked_for_every_value_of_the_other_fields :
+  forall (pubkey sigt peerid : Type) (verify : pubkey -> bytes -> sigt -> bool) (peer_id : pubkey -> peerid)
+         (peerid_eqb : peerid -> peerid -> bool) (Hf : bytes -> bytes) (decode_pid : bytes -> option peerid),
+  (forall a b, peerid_eqb a b = true <-> a = b) ->
+  forall (strict : bool) (a : ad pubkey sigt) (x : ext pubkey sigt) (s : peerid),
+  verify_gen verify peer_id peerid_eqb (ideal_H Hf) decode_pid strict a = Ok s -> a_ext a = Some x ->
+  Forall (ep_accepts pubkey sigt peerid verify peer_id Hf decode_pid strict a x s) (x_providers x) /\
+  (x_providers x <> [] -> a_rm a = false /\ existsb (is_main a) (x_providers x) = true).
+Proof. exact entries_always_checked. Qed.
+Print Assumptions extended_providers_checked_for_every_value_of_the_other_fields.
+
+Theorem removal_advertisement_with_entries_rejected :
+  forall (pubkey sigt peerid : Type) (verify : pubkey -> bytes -> sigt -> bool) (peer_id : pubkey -> peerid)
+         (peerid_eqb : peerid -> peerid -> bool) (Hf : bytes -> bytes) (decode_pid : bytes -> option peerid),
+  (forall a b, peerid_eqb a b = true <-> a = b) ->
+  forall (strict : bool) (a : ad pubkey sigt) (x : ext pubkey sigt),
+  a_ext a = Some x -> x_providers x <> [] -> a_rm a = true ->
+  is_ok (verify_gen verify peer_id peerid_eqb (ideal_H Hf) decode_pid strict a) = false.
+Proof. exact removal_with_entries_rejected. Qed.
+Print Assumptions removal_advertisement_with_entries_rejected.
+
+Theorem replaced_extended_provider_list_checked :
+  forall (pubkey sigt peerid : Type) (verify : pubkey -> bytes -> sigt -> bool) (peer_id : pubkey -> peerid)
+         (peerid_eqb : peerid -> peerid -> bool) (Hf : bytes -> bytes) (decode_pid : bytes -> option peerid),
+  (forall a b, peerid_eqb a b = true <-> a = b) ->
+  forall (strict strict' : bool) (a : ad pubkey sigt) (s : peerid) (x' : ext pubkey sigt) (s' : peerid),
+  verify_gen verify peer_id peerid_eqb (ideal_H Hf) decode_pid strict a = Ok s ->
+  verify_gen verify peer_id peerid_eqb (ideal_H Hf) decode_pid strict' (set_ext a (Some x')) = Ok s' ->
+  s' = s /\
+  Forall (ep_accepts pubkey sigt peerid verify peer_id Hf decode_pid strict' (set_ext a (Some x')) x' s) (x_providers x') /\
+  (x_providers x' <> [] -> a_rm a = false /\ existsb (is_main a) (x_providers x') = true).
+Proof. exact replaced_list_checked. Qed.
+Print Assumptions replaced_extended_provider_list_checked.
